@@ -886,6 +886,22 @@ func (q *checker) bcheckVar(n *a.Var) error {
 		return err
 	}
 
+	// An array's elements are also implicitly zero-initialized.
+	inner := n.XType()
+	for inner.IsEitherArrayType() {
+		inner = inner.Inner()
+	}
+	if (inner != n.XType()) && inner.IsNumType() {
+		ib, err := q.bcheckTypeExpr(inner)
+		if err != nil {
+			return err
+		}
+		if (zero.Cmp(ib[0]) < 0) || (zero.Cmp(ib[1]) > 0) {
+			return fmt.Errorf("check: default zero value is not within bounds %v for var %q",
+				ib, n.Name().Str(q.tm))
+		}
+	}
+
 	lhs := a.NewExpr(0, 0, n.Name(), nil, nil, nil, nil)
 	lhs.SetMType(n.XType())
 	// "var x T" has an implicit "= 0".
